@@ -4,6 +4,7 @@ import (
 	"bytes"
 	"encoding/json"
 	"fmt"
+	"github.com/z7zmey/php-parser/pkg/token"
 	"strings"
 
 	"github.com/z7zmey/php-parser/pkg/ast"
@@ -24,6 +25,7 @@ type c15Case struct {
 	HTML   bool   `json:"html_state"`
 	Pre    string `json:"text_before_every_marker,omitempty"`
 	Suf    string `json:"text_after_every_marker,omitempty"`
+	FreeID int    `json:"id_of_free_floating_tokens,omitempty"`
 }
 
 type listOpt struct{ items, seps int }
@@ -168,16 +170,18 @@ func c15One(c *core.Ctx, cs c15Case, thorough bool) {
 		return
 	}
 	spec := c15Spec(fs, dims, cs.Digits, thorough)
-	astx.MarkerPre, astx.MarkerSuf = cs.Pre, cs.Suf
+	astx.MarkerPre, astx.MarkerSuf, astx.FreeID = cs.Pre, cs.Suf, token.ID(cs.FreeID)
 	b := astx.Build(mk, spec, nil)
-	astx.MarkerPre, astx.MarkerSuf = "", ""
+	astx.MarkerPre, astx.MarkerSuf, astx.FreeID = "", "", 0
 	out, pan := printNode(b.Node, cs.HTML)
 	if cs.Pre != "" || cs.Suf != "" {
 		astx.MarkerPre, astx.MarkerSuf = cs.Pre, cs.Suf
 		out = astx.UnwrapMarkers(out)
 		astx.MarkerPre, astx.MarkerSuf = "", ""
 	}
-	ctx := func() string { return fmt.Sprintf("%s slots %v html=%v → %q", cs.Kind, specString(fs, spec), cs.HTML, out) }
+	ctx := func() string {
+		return fmt.Sprintf("%s slots %v html=%v → %q", cs.Kind, specString(fs, spec), cs.HTML, out)
+	}
 	if pan != nil {
 		c.Report("print "+cs.Kind+": panic", fmt.Sprintf("%s slots %v: %v", cs.Kind, specString(fs, spec), pan), cs)
 		return
@@ -445,6 +449,18 @@ func c15Run(c *core.Ctx) {
 						cw.Pre, cw.Suf = w[0], w[1]
 						c15One(c, cw, c.Thorough())
 						c.Stat("prints_with_tag_like_texts", 1)
+					}
+					// … and with the free-floating tokens carrying each id a scanner gives them: what is printed must not
+					// depend on it
+					ids := []token.ID{token.T_OPEN_TAG, token.T_COMMENT}
+					if c.Thorough() {
+						ids = append(ids, token.T_DOC_COMMENT, token.T_INLINE_HTML, token.T_HALT_COMPILER, token.T_OPEN_TAG_WITH_ECHO)
+					}
+					for _, id := range ids {
+						cw := cs
+						cw.FreeID = int(id)
+						c15One(c, cw, c.Thorough())
+						c.Stat("prints_with_other_free_floating_ids", 1)
 					}
 				}
 				if idx > 0 {
